@@ -230,6 +230,20 @@ def run(pid: str, tier: str, seed: int, *, replay: dict | None = None) -> int:
                 if not ra.ok:
                     ck.model_violation(ra, "BrokerRabbit (atomic requeue, cancellable callers)")
                 ck.add_tlc(ra, "BrokerRabbit with a one-step requeue and cancellable callers: all invariants and the refinement hold")
+        if pid == "C05":
+            # the implementation-shaped specification of the Redis broker's whole life cycle: invariants, NeverEarly, and -- repair
+            # bccc295 -- ReturnKeepsDue (a message that comes back from flight into the delayed set comes back under the score it
+            # had); with the pinned reject() TLC finds the recurring message that is put off by a period
+            for cfg4 in (["MC_BrokerRedisLife_quick.cfg"] if tier == "quick" else ["MC_BrokerRedisLife_mid.cfg", "MC_BrokerRedisLife_nx.cfg"]):
+                r4 = tlc.run_tlc("MC_BrokerRedisLife", cfg4, timeout=3000)
+                if not r4.ok:
+                    ck.model_violation(r4, "BrokerRedisLife")
+                ck.add_tlc(r4, f"BrokerRedisLife, {cfg4}: Conservation, MarkedIffInFlight, HeldIsInFlight, DueRemembered, ReturnKeepsDue, NotBeforeTimeout, NeverEarly")
+            rp4 = tlc.run_tlc("MC_BrokerRedisLife", "MC_BrokerRedisLife_pinned.cfg", timeout=3000)
+            if rp4.ok or rp4.violated != "ReturnKeepsDue":
+                raise tlc.MachineryError(f"BrokerRedisLife (pinned reject): expected ReturnKeepsDue to fail, got {rp4.violated}")
+            ck.add_tlc(rp4, "BrokerRedisLife with the reject() of before repair bccc295: TLC's counter-example to ReturnKeepsDue "
+                            "(Enqueue defer, Tick, Start, Prefetch, Consume, Reject: the score is computed anew)")
         if pid == "C12":
             # the recorded finding rabbit-prefetch-expiry at the level of the design: with the pinned algorithm TLC finds the
             # hand-over of an expired message (strict refinement fails); with the check moved to the hand-over it holds
@@ -367,6 +381,10 @@ def run(pid: str, tier: str, seed: int, *, replay: dict | None = None) -> int:
             from checks import suite_traces
             suite_traces.run_part(ck, tier)
             lap("executions of the repository's own test suite validated")
+        if pid == "C05":
+            from checks import replay_redis_life
+            replay_redis_life.run_part(ck, tier, seed)
+            lap("BrokerRedisLife behaviours replayed against the real Redis broker on the fake server")
         if pid == "C12":
             from checks import worker_checks
             worker_checks.extra_c12(ck, tier, random.Random(seed))
